@@ -26,7 +26,7 @@ type Req struct {
 	MangleArg  int64         `json:"mangle_arg,omitempty"`
 	ReplayOf   int           `json:"replay_of"`             // -1, else resend the header of request #k
 	Cookie     string        `json:"cookie,omitempty"`      // "" = the agent's jar | none | forged | other
-	StoreFault string        `json:"store_fault,omitempty"` // get-error | new-error | lost | truncated
+	StoreFault string        `json:"store_fault,omitempty"` // get-error | get-error-stale | new-error | lost | truncated
 	API        string        `json:"api,omitempty"`         // "" = HTTP | accept | krb5token | neginit | negresp
 }
 
@@ -39,7 +39,7 @@ type Tape struct {
 	Reqs       []Req                 `json:"reqs"`
 }
 
-var framings = []string{"init-krb5", "init-ms", "init-ntlm-first", "init-empty", "init-foreign", "init-nomechtoken", "resp", "resp-nomech", "resp-foreign", "raw"}
+var framings = []string{"init-krb5", "init-ms", "init-ntlm-first", "init-empty", "init-foreign", "init-nomechtoken", "resp", "resp-nomech", "resp-foreign", "resp-notoken-completed", "resp-notoken-incomplete", "raw"}
 var etypes = []int{18, 17, 19, 20, 16, 23}
 var defects = []string{"wrong-key", "wrong-kvno-label", "wrong-realm-label", "wrong-sname-label", "ticket-usage", "auth-usage-7", "auth-wrong-key", "flag-invalid",
 	"tkt-flip", "tkt-trunc", "auth-flip", "auth-trunc", "cname-mismatch", "crealm-mismatch", "t-end", "t-start", "t-ctime-old", "t-ctime-future"}
@@ -168,7 +168,7 @@ func Gen(caseID, tier string) (json.RawMessage, error) {
 		if tp.SessionMgr {
 			rq.Cookie = r.Pick("", "", "", "none", "forged", "other")
 			if r.Chance(1, 5) {
-				rq.StoreFault = r.Pick("get-error", "new-error", "lost", "truncated")
+				rq.StoreFault = r.Pick("get-error", "get-error-stale", "get-error-stale", "new-error", "lost", "truncated")
 			}
 		}
 		if apiRun && rq.Header == "token" {
